@@ -1,0 +1,205 @@
+//go:build verif
+
+package option
+
+// Machine-checked contracts for govc (the VC generator in /verif/govc).
+// This file contains comments only; it is compiled into nothing.
+//
+// Representation invariant of an option record: the receiver pointer that matches the
+// option kind is non-nil, every other receiver pointer is nil.
+//
+//@ spec func KindOK(t Type) bool = BoolType <= t && t <= StringMapType
+//@ spec func IsStringKind(t Type) bool = t == StringType || t == StringOptionalType
+//@ spec func IsIntKind(t Type) bool = t == IntType || t == IntOptionalType
+//@ spec func IsFloatKind(t Type) bool = t == Float64Type || t == Float64OptionalType
+//@ spec func UsesPInt(t Type) bool = t == IntType || t == IntOptionalType || t == IncrementType
+//@ spec func RepOK(o *Option) bool = o != nil && KindOK(o.OptType)
+//@     && ((o.OptType == BoolType) <==> o.pBool != nil)
+//@     && (IsStringKind(o.OptType) <==> o.pString != nil)
+//@     && (UsesPInt(o.OptType) <==> o.pInt != nil)
+//@     && (IsFloatKind(o.OptType) <==> o.pFloat64 != nil)
+//@     && ((o.OptType == StringRepeatType) <==> o.pStringS != nil)
+//@     && ((o.OptType == IntRepeatType) <==> o.pIntS != nil)
+//@     && ((o.OptType == Float64RepeatType) <==> o.pFloat64S != nil)
+//@     && ((o.OptType == StringMapType) <==> o.pStringM != nil)
+//@     && (o.OptType == StringMapType ==> *o.pStringM != nil)
+//
+// The map object of a map option (nil for every other kind).
+//@ spec func MapOf(o *Option) map[string]string = ite(o.OptType == StringMapType, *o.pStringM, nil)
+//
+// ValidOK: every element of a passes the ValidValues filter.
+//@ spec func InValid(o *Option, e string) bool = exists j int :: 0 <= j && j < len(o.ValidValues) && o.ValidValues[j] == e
+//@ spec func ValidOK(o *Option, a []string) bool = len(o.ValidValues) == 0 || (forall i int :: 0 <= i && i < len(a) ==> InValid(o, a[i]))
+//
+// Receivers unchanged with respect to the pre-state.
+//@ spec func ScalarsSame(o *Option) bool = *o.pBool == old(*o.pBool) && *o.pString == old(*o.pString) && *o.pInt == old(*o.pInt) && *o.pFloat64 == old(*o.pFloat64)
+//@ spec func SlicesSame(o *Option) bool = eqseq(*o.pStringS, old(*o.pStringS)) && eqseq(*o.pIntS, old(*o.pIntS)) && eqseq(*o.pFloat64S, old(*o.pFloat64S))
+//@ spec func MapSame(o *Option) bool = o.OptType == StringMapType ==> (forall k string :: (k in MapOf(o)) == old(k in MapOf(o)) && MapOf(o)[k] == old(MapOf(o)[k]))
+//@ spec func AllSame(o *Option) bool = ScalarsSame(o) && SlicesSame(o) && MapSame(o)
+
+//@ func stringSliceIndex
+//@   props C01 C19
+//@   modifies
+//@   ensures found: result1 ==> 0 <= result0 && result0 < len(ss) && ss[result0] == e
+//@   ensures missing: !result1 ==> result0 == 0 - 1 && (forall j int :: 0 <= j && j < len(ss) ==> ss[j] != e)
+//@   loop #1
+//@     invariant scanned: forall j int :: 0 <= j && j <= $idx ==> ss[j] != e
+
+//@ func (*Option).CheckRequired
+//@   props C11 C19
+//@   requires opt != nil
+//@   modifies
+//@   ensures req.exact {C11}: (result != nil) == (opt.IsRequired && !opt.Called)
+//@   ensures req.wraps {C11}: result != nil ==> erris(result, ErrorMissingRequiredOption)
+//@   ensures req.custom {C11}: result != nil && opt.IsRequiredErr != "" ==> errmsg(result) == errmsg(ErrorMissingRequiredOption) ++ opt.IsRequiredErr
+//@   ensures req.default {C11,C20}: result != nil && opt.IsRequiredErr == "" ==> errmsg(result) == errmsg(ErrorMissingRequiredOption) ++ "Missing required parameter '" ++ opt.Name ++ "'"
+
+//@ func (*Option).ValidateMinMaxArgs
+//@   props C02 C19
+//@   requires opt != nil
+//@   modifies
+//@   ensures minmax.exact {C02}: (result == nil) == (1 <= opt.MinArgs && opt.MinArgs <= opt.MaxArgs)
+
+//@ func (*Option).SetCalled
+//@   props C06 C12 C19
+//@   requires opt != nil
+//@   modifies opt.Called, opt.UsedAlias
+//@   ensures opt.Called && opt.UsedAlias == usedAlias && result == opt
+
+//@ func (*Option).SetRequired
+//@   props C11 C19
+//@   requires opt != nil
+//@   modifies opt.IsRequired, opt.IsRequiredErr
+//@   ensures opt.IsRequired && opt.IsRequiredErr == msg && result == opt
+
+//@ func (*Option).SetEnvVar
+//@   props C12 C19
+//@   requires opt != nil
+//@   modifies opt.EnvVar
+//@   ensures opt.EnvVar == name && result == opt
+
+//@ func (*Option).SetBool
+//@   props C19
+//@   requires opt != nil && opt.pBool != nil
+//@   modifies *opt.pBool
+//@   ensures *opt.pBool == b && result == opt
+
+//@ func (*Option).SetBoolAsOppositeToDefault
+//@   props C01 C19
+//@   requires opt != nil && opt.pBool != nil
+//@   modifies *opt.pBool
+//@   ensures *opt.pBool == !opt.boolDefault && result == opt
+
+//@ func (*Option).SetString
+//@   props C01 C19
+//@   requires opt != nil && opt.pString != nil
+//@   modifies *opt.pString
+//@   ensures *opt.pString == s && result == opt
+
+//@ func (*Option).SetInt
+//@   props C01 C19
+//@   requires opt != nil && opt.pInt != nil
+//@   modifies *opt.pInt
+//@   ensures *opt.pInt == i && result == opt
+
+//@ func (*Option).Int
+//@   props C01 C19
+//@   requires opt != nil && opt.pInt != nil
+//@   modifies
+//@   ensures result == *opt.pInt
+
+//@ func (*Option).SetFloat64
+//@   props C01 C19
+//@   requires opt != nil && opt.pFloat64 != nil
+//@   modifies *opt.pFloat64
+//@   ensures *opt.pFloat64 == f && result == opt
+
+//@ func (*Option).SetStringSlice
+//@   props C02 C19
+//@   requires opt != nil && opt.pStringS != nil
+//@   modifies *opt.pStringS
+//@   ensures eqseq(*opt.pStringS, s) && result == opt
+
+//@ func (*Option).SetIntSlice
+//@   props C02 C19
+//@   requires opt != nil && opt.pIntS != nil
+//@   modifies *opt.pIntS
+//@   ensures eqseq(*opt.pIntS, s) && result == opt
+
+//@ func (*Option).SetFloat64Slice
+//@   props C02 C19
+//@   requires opt != nil && opt.pFloat64S != nil
+//@   modifies *opt.pFloat64S
+//@   ensures eqseq(*opt.pFloat64S, s) && result == opt
+
+//@ func (*Option).SetKeyValueToStringMap
+//@   props C02 C19
+//@   requires opt != nil && opt.pStringM != nil && *opt.pStringM != nil
+//@   modifies mapof(*opt.pStringM)
+//@   ensures setkv {C02}: forall q string :: (q in *opt.pStringM) == (old(q in *opt.pStringM) || q == ite(opt.MapKeysToLower, lower(k), k))
+//@   ensures setkv.val {C02}: forall q string :: (*opt.pStringM)[q] == ite(q == ite(opt.MapKeysToLower, lower(k), k), v, old((*opt.pStringM)[q]))
+//@   ensures result == opt
+
+// ---- Save ---------------------------------------------------------------------
+//
+// Element syntax of the repeat kinds (C02): an int element is a decimal number or a range lo..hi with lo < hi.
+//@ spec func IsRange(e string) bool = contains(e, "..")
+//@ spec func RLo(e string) string = substr(e, 0, indexof(e, ".."))
+//@ spec func RHi(e string) string = substr(e, indexof(e, "..") + 2, len(e))
+//@ spec func RangeOK(e string) bool = atoi_ok(RLo(e)) && atoi_ok(RHi(e)) && atoi_val(RLo(e)) < atoi_val(RHi(e))
+//@ spec func IntElemOK(e string) bool = ite(IsRange(e), RangeOK(e), atoi_ok(e))
+//@ spec func IntElemLen(e string) int = ite(IsRange(e), atoi_val(RHi(e)) - atoi_val(RLo(e)) + 1, 1)
+//@ spec func IntElemAt(e string, k int) int = ite(IsRange(e), atoi_val(RLo(e)) + k, atoi_val(e))
+//
+// key=value elements of a map option: the key is the text before the FIRST '=', the value everything after it.
+//@ spec func MKey(e string) string = substr(e, 0, indexof(e, "="))
+//@ spec func MVal(e string) string = substr(e, indexof(e, "=") + 1, len(e))
+//@ spec func StoredKey(o *Option, e string) string = ite(o.MapKeysToLower, lower(MKey(e)), MKey(e))
+//@ spec func MapPut(o *Option, e string) bool = forall q string :: ((q in MapOf(o)) == (old(q in MapOf(o)) || q == StoredKey(o, e))) && MapOf(o)[q] == ite(q == StoredKey(o, e), MVal(e), old(MapOf(o)[q]))
+
+//@ func (*Option).Save
+//@   props C01 C02 C12 C19
+//@   requires save.rep: RepOK(opt)
+//@   modifies *opt.pBool, *opt.pString, *opt.pInt, *opt.pFloat64, *opt.pStringS, *opt.pIntS, *opt.pFloat64S, mapof(MapOf(opt))
+//@   ensures save.noarg.bool {C01}: len(a) == 0 && opt.OptType == BoolType ==> result == nil && *opt.pBool == !opt.boolDefault
+//@   ensures save.noarg.incr {C01}: len(a) == 0 && opt.OptType == IncrementType ==> result == nil && (old(*opt.pInt) < 9223372036854775807 ==> *opt.pInt == old(*opt.pInt) + 1)
+//@   ensures save.noarg.other {C01}: len(a) == 0 && opt.OptType != BoolType && opt.OptType != IncrementType ==> result == nil && AllSame(opt)
+//@   ensures save.invalid {C01,C02}: len(a) >= 1 && !ValidOK(opt, a) ==> result != nil && AllSame(opt)
+//@   ensures save.string {C01,C12}: len(a) >= 1 && ValidOK(opt, a) && IsStringKind(opt.OptType) ==> result == nil && *opt.pString == a[0]
+//@   ensures save.int.ok {C01,C12}: len(a) >= 1 && ValidOK(opt, a) && IsIntKind(opt.OptType) && atoi_ok(a[0]) ==> result == nil && *opt.pInt == atoi_val(a[0])
+//@   ensures save.int.err {C01,C12}: len(a) >= 1 && ValidOK(opt, a) && IsIntKind(opt.OptType) && !atoi_ok(a[0]) ==> result != nil && AllSame(opt)
+//@   ensures save.float.ok {C01,C12}: len(a) >= 1 && ValidOK(opt, a) && IsFloatKind(opt.OptType) && pf_ok(a[0]) ==> result == nil && *opt.pFloat64 == pf_val(a[0])
+//@   ensures save.float.err {C01,C12}: len(a) >= 1 && ValidOK(opt, a) && IsFloatKind(opt.OptType) && !pf_ok(a[0]) ==> result != nil && AllSame(opt)
+//@   ensures save.bool.arg {C12}: len(a) >= 1 && ValidOK(opt, a) && opt.OptType == BoolType ==> result == nil && *opt.pBool == ite(a[0] == "true", true, ite(a[0] == "false", false, !opt.boolDefault))
+//@   ensures save.incr.arg {C01}: len(a) >= 1 && ValidOK(opt, a) && opt.OptType == IncrementType ==> result == nil && (old(*opt.pInt) < 9223372036854775807 ==> *opt.pInt == old(*opt.pInt) + 1)
+//@   ensures save.strs {C02}: len(a) >= 1 && ValidOK(opt, a) && opt.OptType == StringRepeatType ==> result == nil && isconcat(*opt.pStringS, old(*opt.pStringS), a)
+//@   ensures save.ints.ok {C02}: len(a) == 1 && ValidOK(opt, a) && opt.OptType == IntRepeatType && IntElemOK(a[0]) ==> result == nil
+//@       && len(*opt.pIntS) == old(len(*opt.pIntS)) + IntElemLen(a[0])
+//@       && (forall k int :: 0 <= k && k < old(len(*opt.pIntS)) ==> (*opt.pIntS)[k] == old((*opt.pIntS)[k]))
+//@       && (forall q int :: old(len(*opt.pIntS)) <= q && q < len(*opt.pIntS) ==> (*opt.pIntS)[q] == IntElemAt(a[0], q - old(len(*opt.pIntS))))
+//@   ensures save.ints.err {C01,C02}: len(a) == 1 && ValidOK(opt, a) && opt.OptType == IntRepeatType && !IntElemOK(a[0]) ==> result != nil && AllSame(opt)
+//@   ensures save.floats.ok {C02}: len(a) == 1 && ValidOK(opt, a) && opt.OptType == Float64RepeatType && pf_ok(a[0]) ==> result == nil
+//@       && len(*opt.pFloat64S) == old(len(*opt.pFloat64S)) + 1
+//@       && (forall k int :: 0 <= k && k < old(len(*opt.pFloat64S)) ==> (*opt.pFloat64S)[k] == old((*opt.pFloat64S)[k]))
+//@       && (*opt.pFloat64S)[old(len(*opt.pFloat64S))] == pf_val(a[0])
+//@   ensures save.floats.err {C01,C02}: len(a) == 1 && ValidOK(opt, a) && opt.OptType == Float64RepeatType && !pf_ok(a[0]) ==> result != nil && AllSame(opt)
+//@   ensures save.map.ok {C02}: len(a) == 1 && ValidOK(opt, a) && opt.OptType == StringMapType && contains(a[0], "=") ==> result == nil && MapPut(opt, a[0])
+//@   ensures save.map.err {C02}: len(a) == 1 && ValidOK(opt, a) && opt.OptType == StringMapType && !contains(a[0], "=") ==> result != nil && AllSame(opt)
+//@   loop "for _, e := range a"@1
+//@     invariant valid.scanned: len(opt.ValidValues) > 0 ==> (forall i int :: 0 <= i && i <= $idx ==> InValid(opt, a[i]))
+//@   loop "for _, e := range a"@2
+//@     invariant ints.start: $idx == 0 - 1 ==> len(ii) == 0
+//@     invariant ints.one: len(a) == 1 && $idx == 0 ==> IntElemOK(a[0]) && len(ii) == IntElemLen(a[0]) && (forall k int :: 0 <= k && k < len(ii) ==> ii[k] == IntElemAt(a[0], k))
+//@   loop "for j := in1; j < in2; j++"
+//@     invariant range.bounds: in1 <= j && j <= in2
+//@     invariant range.len: len(ii) == old_loop(len(ii)) + (j - in1)
+//@     invariant range.prefix: forall k int :: 0 <= k && k < old_loop(len(ii)) ==> ii[k] == old_loop(ii[k])
+//@     invariant range.values: forall q int :: old_loop(len(ii)) <= q && q < len(ii) ==> ii[q] == in1 + (q - old_loop(len(ii)))
+//@     decreases in2 - j
+//@   loop "for _, e := range a"@3
+//@     invariant floats.start: $idx == 0 - 1 ==> len(ff) == 0
+//@     invariant floats.one: len(a) == 1 && $idx == 0 ==> pf_ok(a[0]) && len(ff) == 1 && ff[0] == pf_val(a[0])
+//@   loop "for _, e := range a"@4
+//@     modifies mapof(MapOf(opt))
+//@     invariant map.start: $idx == 0 - 1 ==> MapSame(opt)
+//@     invariant map.one: len(a) == 1 && $idx == 0 ==> contains(a[0], "=") && MapPut(opt, a[0])
